@@ -88,11 +88,13 @@ func (ln *listener) Accept() (net.Conn, error) {
 
 // Close implements Listener.
 func (ln *listener) Close() error {
-	if ln.fd != 0 {
-		syscall.Close(ln.fd)
-	}
 	if ln.file != nil {
+		// ln.fd is the number of the descriptor that ln.file owns: close it once, through
+		// its owner (closing the raw number first made file.Close() close whatever had been
+		// opened under that number in the meantime)
 		ln.file.Close()
+	} else if ln.fd != 0 {
+		syscall.Close(ln.fd)
 	}
 	if ln.ln != nil {
 		ln.ln.Close()
